@@ -352,7 +352,7 @@
         // anything else is rejected with PARAMETER_ERROR and only that
         assert!(iin2.value == if bad { 0x04 } else { 0 });
         assert!(s.state.last_broadcast_type == bcast);
-        kani::cover!(clears == 1 && !bad);
+        kani::cover!(clears == 1);
         kani::cover!(clears == 0 && bad);
         std::mem::forget(s);
     }
